@@ -95,6 +95,11 @@ class Recon:
             return S.unk("recursion")
 
     def _e(self, ctx, node, at, binds, after, depth):
+        hv_at = getattr(node, "_hv_at", None)
+        if hv_at is not None and getattr(ctx, "cfg", None) is not None:
+            own = ctx.cfg.node_of.get(hv_at)
+            if own is not None and own is not at:
+                at, after = own, False
         if depth > MAX_DEPTH:
             return S.unk("depth:" + ast.unparse(node)[:40])
         rec = lambda n: self._e(ctx, n, at, binds, after, depth + 1)  # noqa: E731
@@ -793,6 +798,13 @@ class Recon:
     # -- attributes -------------------------------------------------------------------
     def attr(self, base, name: str, ctx: FuncCtx | None = None, depth=0):
         k = base[0]
+        if k == "call" and base[1] == "ext:struct.Struct" and name == "size" and len(base[2]) == 1 and S.is_const(base[2][0]) and isinstance(base[2][0][1], str):
+            import struct as _st
+
+            try:
+                return S.C(_st.calcsize(base[2][0][1]))
+            except _st.error:
+                pass
         if k == "self":
             return self.self_attr(base[1], name, depth)
         if k == "call" and base[1].startswith("new:"):
@@ -1032,6 +1044,8 @@ class Recon:
         return self._call_value(ctx, node, f, args, kws, depth)
 
     def _method_call(self, ctx: FuncCtx, node: ast.Call, recv, name: str, args, kws, depth):
+        if name in ("unpack", "unpack_from", "pack", "iter_unpack") and recv[0] == "call" and recv[1] == "ext:struct.Struct" and len(recv[2]) == 1 and not kws:
+            return S.call("ext:struct." + name, [recv[2][0]] + list(args))  # Struct(fmt).unpack(data) is struct.unpack(fmt, data)
         if name == "digest" and not args and not kws and recv[0] == "call" and recv[1] == "ext:hmac.new" and len(recv[2]) == 3:
             return S.call("ext:hmac.digest", list(recv[2]))  # hmac.new(key, msg, alg).digest() is hmac.digest(key, msg, alg)
         if name == "format" and S.is_const(recv) and type(recv[1]) is str and all(S.is_const(a) and type(a[1]) in (str, int) for a in args):
